@@ -56,6 +56,9 @@ pub enum TrainKind {
     Unrelated,
     Text,
     Empty,
+    /// several hundred KiB of very skewed data followed by the payload: symbol counts far above
+    /// 16 bits (frequency tables stored in narrow fields, normalisation of huge counts)
+    HugeSkew,
 }
 
 #[derive(Clone, Debug, Serialize, Deserialize)]
@@ -258,6 +261,21 @@ fn resolve_train(t: &Train, x: &[u8]) -> Vec<u8> {
         TrainKind::Unrelated => expand(Content::KSymbol, n.max(1), t.seed),
         TrainKind::Text => expand(Content::Text, n.max(1), t.seed),
         TrainKind::Empty => vec![],
+        TrainKind::HugeSkew => {
+            // dominant symbol ~70 %, then a geometric tail, then the payload itself so that every
+            // payload symbol is covered by the model
+            let total = 120_000 + (n % 8) * 40_000;
+            let mut r = Xs(t.seed | 1);
+            let base = (t.seed >> 8) as u8;
+            let mut v: Vec<u8> = (0..total)
+                .map(|_| {
+                    let u = r.below(1000);
+                    if u < 700 { base } else if u < 900 { base.wrapping_add(1) } else if u < 985 { base.wrapping_add(2) } else { base.wrapping_add(3 + (r.below(6) as u8)) }
+                })
+                .collect();
+            v.extend_from_slice(x);
+            v
+        }
     }
 }
 
@@ -341,6 +359,7 @@ fn train() -> BoxedStrategy<Train> {
             3 => Just(TrainKind::Unrelated),
             2 => Just(TrainKind::Text),
             1 => Just(TrainKind::Empty),
+            2 => Just(TrainKind::HugeSkew),
         ],
         any::<u64>(),
         prop_oneof![1u16..40, 1u16..2000],
@@ -642,6 +661,9 @@ fn run_factory(ctx: &mut Ctx, alg_i: usize, level: i32, px: &Px, train: &Train) 
     let x = px.bytes();
     label_payload(ctx, &px.class(), x.len());
     let trained = matches!(alg, Algorithm::Huffman | Algorithm::Rans | Algorithm::Dictionary | Algorithm::Hybrid);
+    let huge_ok = matches!(alg, Algorithm::Huffman | Algorithm::Rans);
+    let eff_train = if train.kind == TrainKind::HugeSkew && !huge_ok { Train { kind: TrainKind::Same, ..train.clone() } } else { train.clone() };
+    let train = &eff_train;
     let t = if trained { resolve_train(train, &x) } else { vec![] };
     if trained {
         ctx.label(format!("train_{:?}", train.kind));
